@@ -10,6 +10,7 @@ import (
 	"fmt"
 	"hash/fnv"
 	"sort"
+	"strings"
 	"sync"
 	"sync/atomic"
 	"testing/synctest"
@@ -182,6 +183,9 @@ func (s *Sim) siteActive(site string) bool {
 	if s.yieldAll {
 		return true
 	}
+	if i := strings.IndexByte(site, ':'); i >= 0 {
+		site = site[:i]
+	}
 	return s.yieldSites[site]
 }
 
@@ -203,7 +207,11 @@ func (s *Sim) yield(site, node string) {
 	g.k = s.parkCount[key]
 	s.parkCount[key] = g.k + 1
 	s.parked = append(s.parked, g)
-	s.siteHits[site]++
+	if i := strings.IndexByte(site, ':'); i >= 0 {
+		s.siteHits[site[:i]]++
+	} else {
+		s.siteHits[site]++
+	}
 	s.mu.Unlock()
 	select {
 	case s.parkedSig <- struct{}{}:
